@@ -20,7 +20,8 @@
 From ZenoV Require Export Tree.Item Stage.Pass.
 Open Scope N_scope.
 
-Record sd := SD { s_id : N; s_tree : item; s_next : N; s_or : oracle }.
+Record sd := SD { s_id : N; s_tree : item; s_next : N; s_or : oracle;
+                   s_pass : nat   (* ghost: passes completed so far (read by no step condition) *) }.
 
 (* places 0..9:  0 reactor input channel   1 reactor run() hand
                  2 reactor output channel  3 preprocessor workers
@@ -82,15 +83,15 @@ Inductive label :=
 Definition stage (c : cfg) (k : nat) (o : oracle) (x : sd) : result sd :=
   match k with
   | 3%nat => match pre_worker o (s_tree x) with
-             | Ok t => Ok (SD (s_id x) t (s_next x) o)
+             | Ok t => Ok (SD (s_id x) t (s_next x) o (s_pass x))
              | Panic w => Panic w
              end
   | 5%nat => match arch_worker (s_or x) (s_tree x) with
-             | Ok t => Ok (SD (s_id x) t (s_next x) (s_or x))
+             | Ok t => Ok (SD (s_id x) t (s_next x) (s_or x) (s_pass x))
              | Panic w => Panic w
              end
   | 7%nat => match post_worker c (s_or x) (s_tree x) (s_next x) with
-             | Ok (t, n) => Ok (SD (s_id x) t n (s_or x))
+             | Ok (t, n) => Ok (SD (s_id x) t n (s_or x) (s_pass x))
              | Panic w => Panic w
              end
   | _ => Ok x
@@ -110,7 +111,7 @@ Definition step (s : pst) (l : label) : option pst :=
     | [] => None
     | (id, u, h) :: r =>
       if Nat.ltb (p_tokens s) (p_w s) && Nat.ltb (length (place 0 s)) (capacity (p_w s) 0)
-      then let x := SD id (fst (seed0 u h)) (snd (seed0 u h)) null_oracle in
+      then let x := SD id (fst (seed0 u h)) (snd (seed0 u h)) null_oracle 0 in
            Some (PST (p_w s) (p_cfg s) r (S (p_tokens s)) (id :: p_table s)
                      (upd 0 (fun q => q ++ [x]) (p_places s)) (p_finished s) false)
       else None
@@ -137,7 +138,7 @@ Definition step (s : pst) (l : label) : option pst :=
       | Ok (t, DFeedback) =>
         (* reactor.ReceiveFeedback: a send on the input channel *)
         if Nat.ltb (length (place 0 s)) (capacity (p_w s) 0) then
-          Some (set_places s (upd 0 (fun q => q ++ [SD (s_id x) t (s_next x) (s_or x)])
+          Some (set_places s (upd 0 (fun q => q ++ [SD (s_id x) t (s_next x) (s_or x) (S (s_pass x))])
                                   (upd 9 (fun _ => rest) (p_places s))))
         else None
       | Ok (t, DFinish) =>
